@@ -322,7 +322,8 @@ fn befp_typed(h: RawBefp, thorough: bool) -> (usize, TypedGen) {
     let axes = [0i32, 1, -1, 2];
     let counts: Vec<usize> = vec![w, 0, 1, w - 1, w + 1, 63, 64, 65, 200];
     let nvar = if thorough { 6 } else { 3 };
-    let dims = [idxs.len(), heights.len(), axes.len(), counts.len(), nvar];
+    // which entries keep their share: all, left half, right half, even, odd positions
+    let dims = [idxs.len(), heights.len(), axes.len(), counts.len(), nvar, 5];
     let n_combo = product(&dims);
     let pd = proof_dims(thorough);
     let n_prod = product(&pd);
@@ -354,7 +355,20 @@ fn befp_typed(h: RawBefp, thorough: bool) -> (usize, TypedGen) {
                 }
             }
         }
-        (format!("befp[index={} height={} axis={} shares={} variant#{}]", p.index, p.height, p.axis, counts[d[3]], d[4]), p.encode_to_vec())
+        let n = p.shares.len();
+        for (j, sh) in p.shares.iter_mut().enumerate() {
+            let keep = match d[5] {
+                0 => true,
+                1 => j < n / 2,
+                2 => j >= n / 2,
+                3 => j % 2 == 0,
+                _ => j % 2 == 1,
+            };
+            if !keep {
+                *sh = RawShareWithProof::default();
+            }
+        }
+        (format!("befp[index={} height={} axis={} shares={} variant#{} present#{}]", p.index, p.height, p.axis, counts[d[3]], d[4], d[5]), p.encode_to_vec())
     });
     (n_prod + n_combo, g)
 }
